@@ -39,6 +39,7 @@ import (
 	"github.com/buildbarn/bb-storage/pkg/blobstore/slicing"
 	"github.com/buildbarn/bb-storage/pkg/digest"
 	"golang.org/x/sync/semaphore"
+	rpcstatus "google.golang.org/genproto/googleapis/rpc/status"
 	"google.golang.org/grpc/codes"
 	"google.golang.org/grpc/status"
 	"google.golang.org/protobuf/types/known/anypb"
@@ -111,6 +112,7 @@ type execSpec struct {
 	act            int
 	puts           []int
 	st, ex         int
+	okRepr         int // how success is represented: 0 Status unset, 1 explicit Status{code: OK}, 2 explicit OK with a message
 	files, dirs    []int
 	stdout, stderr int
 	logs           []int
@@ -182,8 +184,14 @@ func (e execSpec) String() string {
 	if len(fs) > 0 {
 		faults = strings.Join(fs, ",")
 	}
-	return fmt.Sprintf("exec dv=%s ap=%s dnc=%s act=%d puts=%s st=%d ex=%d f=%s d=%s o=%s e=%s l=%s honest=%s hold=%d faults=%s",
-		b01(e.dv), b01(e.ap), b01(e.dnc), e.act, csv(e.puts), e.st, e.ex, csv(e.files), csv(e.dirs),
+	st := strconv.Itoa(e.st)
+	if e.st == 0 && e.okRepr == 1 {
+		st = "ok"
+	} else if e.st == 0 && e.okRepr == 2 {
+		st = "okm"
+	}
+	return fmt.Sprintf("exec dv=%s ap=%s dnc=%s act=%d puts=%s st=%s ex=%d f=%s d=%s o=%s e=%s l=%s honest=%s hold=%d faults=%s",
+		b01(e.dv), b01(e.ap), b01(e.dnc), e.act, csv(e.puts), st, e.ex, csv(e.files), csv(e.dirs),
 		opt(e.stdout), opt(e.stderr), csv(e.logs), b01(e.honest), e.hold, faults)
 }
 
@@ -222,6 +230,12 @@ func parseExec(line string) (execSpec, bool) {
 		puts: parseCSV(m["puts"]), st: atoi(m["st"]), ex: atoi(m["ex"]), files: parseCSV(m["f"]), dirs: parseCSV(m["d"]),
 		stdout: atoi(m["o"]), stderr: atoi(m["e"]), logs: parseCSV(m["l"]), honest: m["honest"] == "1",
 		hold: atoi(m["hold"]), faults: map[int]fault{}}
+	switch m["st"] {
+	case "ok":
+		e.okRepr = 1
+	case "okm":
+		e.okRepr = 2
+	}
 	if fs := m["faults"]; fs != "" && fs != "-" {
 		for _, p := range strings.Split(fs, ",") {
 			if i := strings.IndexByte(p, ':'); i > 0 {
@@ -681,13 +695,28 @@ func (i *inner) Execute(ctx context.Context, filePool pool.FilePool, monitor acc
 	}
 	if spec.st != 0 {
 		resp.Status = status.New(codes.Code(spec.st), "scripted").Proto()
-	} else if spec.honest && firstErr != 0 {
+	} else if spec.okRepr == 1 {
+		resp.Status = &rpcstatus.Status{Code: int32(codes.OK)}
+	} else if spec.okRepr == 2 {
+		resp.Status = &rpcstatus.Status{Code: int32(codes.OK), Message: "action completed"}
+	}
+	if spec.st == 0 && spec.honest && firstErr != 0 {
 		// what localBuildExecutor does with a failing upload
 		resp.Status = status.New(codes.Code(firstErr), "upload failed").Proto()
 	}
 	r.innerResp = canonResp(resp)
 	files, dirs, so, se := resultDigests(resp.Result)
-	r.ask(fmt.Sprintf("inner %d %d %s %s %s %s %s", resp.GetStatus().GetCode(), spec.ex, csv(files), csv(dirs), opt(so), opt(se), csv(spec.logs)), "ok")
+	stTok := "-"
+	switch {
+	case resp.Status == nil:
+	case resp.Status.Code != 0:
+		stTok = strconv.Itoa(int(resp.Status.Code))
+	case resp.Status.Message != "":
+		stTok = "okm"
+	default:
+		stTok = "ok"
+	}
+	r.ask(fmt.Sprintf("inner %s %d %s %s %s %s %s", stTok, spec.ex, csv(files), csv(dirs), opt(so), opt(se), csv(spec.logs)), "ok")
 	return resp
 }
 
@@ -992,6 +1021,9 @@ func genExec(rng *hx.Rand, st storeSpec, pool int) execSpec {
 	case 2:
 		e.st = []int{int(codes.Internal), int(codes.DeadlineExceeded), int(codes.InvalidArgument), int(codes.Unavailable)}[rng.Intn(4)]
 	}
+	if e.st == 0 { // the same outcome in the three representations of "no error"
+		e.okRepr = rng.Pick(5, 2, 1)
+	}
 	n := rng.Intn(9)
 	if rng.Chance(1, 8) {
 		n = 9 + rng.Intn(6)
@@ -1140,7 +1172,7 @@ func shrinkFields(lines []string, fails func([]string) bool) []string {
 
 func main() {
 	o := hx.ParseFlags()
-	res := hx.NewResult("pipeline", o, "histories of 1-3 executions through the real caching(flushing(inner)) executors over the real batched store (batch size 1-5, put concurrency 1-4, pre-populated CAS, context-aware or context-ignoring fake stores, 0..all upload slots of the shared put semaphore held by another worker thread, duplicate digests, all outcomes OK/exit!=0/status!=OK/do_not_cache/invalid request); for every scenario: fault-free, every single storage-call position failing, cancelling the context, or succeeding with the context cancelled right afterwards (so that the batched store's wait for an upload slot fails; really blocking when all slots are held elsewhere), all pairs, and every subset of positions when the run has <= 8 (thorough: 10) storage calls, sampled subsets otherwise; non-trivial = at least one underlying CAS Put was issued by the batched store and (an injected fault was hit or an Action Cache entry was written); distinct = hash of the history")
+	res := hx.NewResult("pipeline", o, "histories of 1-3 executions through the real caching(flushing(inner)) executors over the real batched store (batch size 1-5, put concurrency 1-4, pre-populated CAS, context-aware or context-ignoring fake stores, 0..all upload slots of the shared put semaphore held by another worker thread, duplicate digests, all outcomes OK (Status unset, explicit Status{code: OK}, explicit OK with a message)/exit!=0/status!=OK/do_not_cache/invalid request); for every scenario: fault-free, every single storage-call position failing, cancelling the context, or succeeding with the context cancelled right afterwards (so that the batched store's wait for an upload slot fails; really blocking when all slots are held elsewhere), all pairs, and every subset of positions when the run has <= 8 (thorough: 10) storage calls, sampled subsets otherwise; non-trivial = at least one underlying CAS Put was issued by the batched store and (an injected fault was hit or an Action Cache entry was written); distinct = hash of the history")
 	drv, err := hx.StartDriver("pipeline")
 	if err != nil {
 		fmt.Fprintln(os.Stderr, "cannot start model driver:", err)
